@@ -49,6 +49,8 @@ type FuncRun struct {
 	entryVars map[string]CVal
 	loops     *LoopInfo
 	notes     []string
+	checkSeen  map[string]int // internal (check) clauses: number of return paths on which they could be evaluated
+	checkSkip  map[string]int
 	epochInfo map[int]*epochInfo
 	unknownCalls map[string]bool
 	usedContracts map[string]bool
@@ -164,7 +166,7 @@ func analyzeLoops(fn *ssa.Function) *LoopInfo {
 
 func (eng *Engine) newRun(fn *ssa.Function) *FuncRun {
 	run := &FuncRun{eng: eng, fn: fn, key: eng.funcKey(fn), decls: map[string]string{}, compSorts: map[string]Sort{},
-		epochInfo: map[int]*epochInfo{},
+		epochInfo: map[int]*epochInfo{}, checkSeen: map[string]int{}, checkSkip: map[string]int{},
 		unknownCalls: map[string]bool{}, usedContracts: map[string]bool{}, usedExternals: map[string]bool{}, usedAxioms: map[string]bool{}, maxPaths: 4000}
 	run.contract = eng.contractFor(fn)
 	run.loops = analyzeLoops(fn)
